@@ -276,6 +276,11 @@ class Engine(ExprMixin, CallMixin, StmtMixin):
             if fn == "edgeof":
                 return T.scalar(T.TUP, T.VObjS.o_edge(o))
             return T.sv_bool(T.VObjS.is_oNode(o) if fn == "is_onode" else T.VObjS.is_oEdge(o))
+        if fn == "seqpos" and len(e.args) == 2:        # seqpos(l, x): the position of x in the duplicate-free positional list l
+            l, x = self.ev(e.args[0], p), self.ev(e.args[1], p)
+            if getattr(l, "uidx", None) is None:
+                raise ContractError("seqpos() of a list that is not known to be duplicate-free")
+            return T.sv_int(l.uidx(self.coerce(x, l.ty.e).t))
         if fn == "canon":
             v = self.ev(e.args[0], p)
             if isinstance(v.ty, T.Pair):      # canonical key of a composite record: canonicalise every node-tuple component
